@@ -5,7 +5,7 @@ import tlgen
 SUB = "c15"
 # the schema reader / value builder / writer the schema-built inputs are made with (shared with C13's end-to-end part)
 EXTRA_FILES = ("c13e2e.go", "c13groups_build.go")
-MODULES = ["Mtv.Props.C15"]
+MODULES = ["Mtv.Props.C15", "Mtv.Props.C15Cost"]
 THEOREMS = [
     "Mtv.TL.decoder_safe",
     "Mtv.TL.decodeUnknown_no_panic",
@@ -33,6 +33,15 @@ THEOREMS = [
     "Mtv.TL.decode_never_loops_plain",
     "Mtv.TL.nested_packed_refused",
     "Mtv.TL.nested_packed_opened",
+    # allocation: the cost semantics (Mtv/TL/DecodeCost.lean) erases to the decoder and is linear in the input
+    # and in what gunzip really produced
+    "Mtv.TL.cost_erasure",
+    "Mtv.TL.cost_bound_all",
+    "Mtv.TL.costMembers_bound",
+    "Mtv.TL.popMessage_cost",
+    "Mtv.TL.decode_alloc_linear",
+    "Mtv.TL.decode_alloc_linear_named",
+    "Mtv.TL.decode_alloc_linear_plain",
 ]
 RULE = ("structure-aware mutation: a valid encoding of every registered struct constructor, then prefix truncations "
         "(aligned and unaligned), 32-bit words replaced by other registered ids / enum ids / vector, Bool, null, gzip, "
@@ -60,7 +69,14 @@ RULE = ("structure-aware mutation: a valid encoding of every registered struct c
         "distinct = distinct operation lines")
 
 
+def _export_driver(ctx):
+    # c15.cost: the Go side asks the Lean driver of this run for the model's cost of the operation (c15cost.go)
+    import os
+    os.environ["VERIF_C15_DRIVER"] = vlib.driver_path(ctx.prop)
+
+
 def run(ctx):
+    _export_driver(ctx)
     ctx.assumptions += [
         "compress/gzip is not modelled: the harness records what gzip makes of every packed payload occurring in an input and the model uses that table",
         "allocation and time are measured on the Go side (runtime.MemStats.TotalAlloc delta per call, bound 2 MiB + 2 KiB per input byte + 48 per byte "
@@ -78,6 +94,7 @@ def run(ctx):
 
 
 def replay(ctx, path):
+    _export_driver(ctx)
     build = ctx.build_harness
     ctx.build_harness = lambda extra_files=(): build(EXTRA_FILES)  # vlib.replay builds without extra files
     return vlib.replay(ctx, SUB, path)
